@@ -65,7 +65,7 @@ func probeLimit() time.Duration {
 	if os.Getenv("VERIF_TIER") == "thorough" {
 		return 10 * time.Second
 	}
-	return 3 * time.Second
+	return 1500 * time.Millisecond
 }
 
 // workerAS is the worker's own address-space limit (below the driver's 16 GiB):
@@ -228,12 +228,12 @@ func caseTimeout() time.Duration {
 
 func (w *worker) do(req *Request) exchange {
 	b, _ := json.Marshal(req)
+	w.lastP.Store(nil) // before the request is sent: the reader goroutine stores progress lines concurrently
 	w.stdin.Write(b)
 	w.stdin.WriteByte('\n')
 	if err := w.stdin.Flush(); err != nil {
 		return exchange{died: true, tail: "write to worker: " + err.Error() + "\n" + w.errBuf.String()}
 	}
-	w.lastP.Store(nil)
 	lastProbe := func() *ProbeInfo {
 		if lp := w.lastP.Load(); lp != nil {
 			var pi ProbeInfo
